@@ -14,7 +14,7 @@ Proof.
 Qed.
 
 Record InvN (s : nstate) : Prop := mkInvN {
-  in_abs : forall k a c, In (k, (a, c)) (abstracts s) -> a < next_abs s /\ key_of c = k;
+  in_abs : forall k a c, In (k, (a, c)) (abstracts s) -> a < next_abs s /\ (key_live k = true -> key_of c = k);
   in_inst : forall n a, In (n, a) (instances s) -> n < next_num s /\ exists k c, In (k, (a, c)) (abstracts s);
   in_absdup : forall k1 a c1 k2 c2, In (k1, (a, c1)) (abstracts s) -> In (k2, (a, c2)) (abstracts s) -> c1 = c2
 }.
@@ -62,7 +62,7 @@ Proof.
   - constructor; simpl.
     + intros k a c0 H. apply in_app_iff in H. destruct H as [H|[H|[]]].
       * destruct (in_abs _ I k a c0 H). split; [lia|assumption].
-      * inversion H; subst. split; [lia|reflexivity].
+      * inversion H; subst. split; [lia|intros _; reflexivity].
     + intros n b H. apply in_app_iff in H. destruct H as [H|[H|[]]].
       * destruct (in_inst _ I n b H) as [A [k [c0 B]]]. split; [lia|]. exists k, c0. apply in_app_iff. now left.
       * inversion H; subst. split; [lia|]. exists (key_of c), c. apply in_app_iff. right. now left.
@@ -90,7 +90,9 @@ Proof.
     rewrite find_inst_last by (intros m b H E; destruct (in_inst _ I m b H); lia).
     pose proof (find_key_In _ _ _ F) as Hin.
     rewrite (find_abs_In a (abstracts s) c' (fun k1 c1 k2 c2 => in_absdup _ I k1 a c1 k2 c2) (key_of c) Hin).
-    destruct (in_abs _ I _ _ _ Hin) as [_ K]. apply Nat.leb_le in CL. rewrite CL.
+    destruct (in_abs _ I _ _ _ Hin) as [_ K].
+    assert (key_live (key_of c) = true) as KL by (unfold key_live, key_of; apply Nat.leb_le; exact CL).
+    specialize (K KL). apply Nat.leb_le in CL. rewrite CL.
     unfold key_of in K. inversion K. now rewrite H0, H1, H3.
   - split; [|split; [reflexivity|exact CL]]. unfold level_def. cbn [instances abstracts].
     rewrite find_inst_last by (intros m b H E; destruct (in_inst _ I m b H); lia).
@@ -160,6 +162,68 @@ Proof.
   reflexivity.
 Qed.
 
+(* Save + Open (or rendering as a document template) + the first list call: the invariant is kept, every definition
+   handed out before means what it meant, and the ids handed out afterwards are new *)
+Lemma next_after_ge ids : forall base, base <= next_after ids base.
+Proof.
+  induction ids as [|i r IH]; intros base; [apply Nat.le_refl|]. unfold next_after in *. cbn [fold_left].
+  eapply Nat.le_trans; [|apply IH]. apply Nat.le_max_l.
+Qed.
+Lemma next_after_gt ids : forall base i, In i ids -> i < next_after ids base.
+Proof.
+  induction ids as [|j r IH]; intros base i H; [destruct H|]. unfold next_after in *. cbn [fold_left].
+  destruct H as [<-|H]; [|apply IH; exact H].
+  eapply Nat.lt_le_trans; [|apply (next_after_ge r)]. apply Nat.lt_le_trans with (S j); [lia | apply Nat.le_max_r].
+Qed.
+
+Lemma dead_key_not_live k : key_live (dead_key k) = false.
+Proof. destruct k as [[[t sy] l] z]. reflexivity. Qed.
+
+Theorem reopen_inv s : InvN s -> InvN (reopen s).
+Proof.
+  intros I. unfold reopen. constructor; cbn [abstracts next_abs instances next_num].
+  - intros k a c H. apply in_map_iff in H. destruct H as [[k0 [a0 c0]] [E Hin]]. cbn [fst snd] in E. inversion E; subst.
+    split.
+    + apply next_after_gt. apply in_map_iff. exists (k0, (a, c)). split; [reflexivity | exact Hin].
+    + rewrite dead_key_not_live. discriminate.
+  - intros n a H. split.
+    + apply next_after_gt. apply in_map_iff. exists (n, a). split; [reflexivity | exact H].
+    + destruct (in_inst _ I n a H) as [_ [k [c Hin]]]. exists (dead_key k), c.
+      apply in_map_iff. exists (k, (a, c)). split; [reflexivity | exact Hin].
+  - intros k1 a c1 k2 c2 H1 H2. apply in_map_iff in H1. apply in_map_iff in H2.
+    destruct H1 as [[k1' [a1 c1']] [E1 H1]]. destruct H2 as [[k2' [a2 c2']] [E2 H2]]. cbn [fst snd] in E1, E2.
+    inversion E1; inversion E2; subst. exact (in_absdup _ I _ _ _ _ _ H1 H2).
+Qed.
+
+Lemma find_abs_map_key (f : key -> key) a l : find_abs a (map (fun e => (f (fst e), snd e)) l) = find_abs a l.
+Proof.
+  induction l as [|[k [b c]] r IH]; [reflexivity|]. cbn [map find_abs fst snd]. destruct (Nat.eqb a b); [reflexivity | exact IH].
+Qed.
+
+Theorem reopen_keeps s n ilvl : level_def (reopen s) n ilvl = level_def s n ilvl.
+Proof.
+  unfold level_def, reopen. cbn [instances abstracts].
+  destruct (find_inst n (instances s)) as [a|]; [|reflexivity]. rewrite (find_abs_map_key dead_key). reflexivity.
+Qed.
+
+(* the first item after the reopen: its numbering id is none of the ids in use, and its definition is the requested one *)
+Theorem reopen_then_item s c : InvN s ->
+  let '(s', (numid, ilvl)) := add_item (reopen s) c in
+  find_inst numid (instances s) = None
+  /\ level_def s' numid ilvl = Some (fmt_of (l_type c), text_of (l_type c) (l_sym c) ilvl, l_start c).
+Proof.
+  intros I. pose proof (item_definition (reopen s) c (reopen_inv s I)) as D.
+  destruct (add_item (reopen s) c) as [s' [numid ilvl]] eqn:E. destruct D as [D _]. split; [|exact D].
+  assert (numid = next_num (reopen s)) as ->.
+  { unfold add_item in E. destruct (find_key (key_of c) (abstracts (reopen s))) as [[a c']|]; inversion E; reflexivity. }
+  destruct (find_inst (next_num (reopen s)) (instances s)) as [a|] eqn:F; [|reflexivity].
+  exfalso. apply find_inst_In in F. pose proof (next_after_gt (map fst (instances s)) 1 (next_num (reopen s))) as G.
+  unfold reopen in G at 1. cbn [next_num] in G. unfold reopen in F. cbn [next_num] in F.
+  assert (In (next_after (map fst (instances s)) 1) (map fst (instances s))) as Hin
+    by (apply in_map_iff; eexists; split; [|exact F]; reflexivity).
+  specialize (G Hin). unfold reopen in G. cbn [next_num] in G. lia.
+Qed.
+
 (* instance obligation on the source: the cache key contains every attribute the level
    definitions depend on, and the defined levels are 0..8 *)
 Definition numkey_ok : bool :=
@@ -215,6 +279,16 @@ Proof.
     assert (existsb (fun q => Nat.eqb (fst q) id) (live s) = true).
     { apply existsb_exists. exists x. split; [exact Hx|rewrite Ex; apply Nat.eqb_refl]. }
     unfold has_note in H. congruence.
+Qed.
+
+(* notes through save and open: the notes are the same, the invariant holds, and the next note gets an id that is
+   not in use *)
+Theorem reopen_notes_spec s : InvNotes s ->
+  InvNotes (reopen_notes s) /\ live (reopen_notes s) = live s /\ ~ In (next_id (reopen_notes s)) (map fst (live s)).
+Proof.
+  intros [Hnd Hlt]. unfold reopen_notes. cbn [live next_id]. split; [|split; [reflexivity|]].
+  - split; cbn [live next_id]; [exact Hnd|]. intros id Hin. apply next_after_gt. exact Hin.
+  - intros Hin. pose proof (next_after_gt (map fst (live s)) 1 _ Hin) as G. lia.
 Qed.
 
 (* ---- table of contents --------------------------------------------------------------------------- *)
